@@ -440,12 +440,37 @@ def normal_form_file(run, cases, name="C03_nf"):
     return bad
 
 
+def spec_env(seed, positive=False):
+    """pyden environment whose notion of "constant on each cell" is the specification's (Constants, coefficients of
+    elements with embedded_superdegree 0, the affine-constant geometry table), not ufl's is_cellwise_constant"""
+    import pyden
+    import ufl2coq
+
+    class SpecEnv(pyden.Env):
+        def value(self, t, comp, side):
+            name = type(t).__name__
+            h = getattr(self, "t_" + name, None)
+            if h is not None:
+                return h(t, comp, side)
+            if name == "Constant":
+                const = True
+            elif name == "Coefficient":
+                const = t.ufl_element().embedded_superdegree == 0
+            elif name == "Argument":
+                const = False
+            else:
+                const = name in C03_coq.AFFINE_CONSTANT_GEOMETRY
+            key = (ufl2coq.Ctx.term_key(t), tuple(comp), side)
+            return self.field(key, constant=const)
+    return SpecEnv(nv=3, order=4, seed=seed, positive=positive)
+
+
 def ctor_mismatch(case, trials, seed):
     """search oracle for the constructor cases: the derivative of the operand, computed on exact jets"""
     import pyden
     rng = random.Random(seed)
     for t in range(trials):
-        env = pyden.Env(nv=3, order=4, seed=rng.randrange(10**9))
+        env = spec_env(rng.randrange(10**9))
         for c in case.components():
             try:
                 a = pyden.evaluate(case.out, env, {}, c)
@@ -508,17 +533,17 @@ def main(run):
 
     for cell in cells:
         for nm, e, gen, err in rule_cases(cell):
-            add_rule(nm, e, gen, err, cell, 4 if quick else 6)
+            add_rule(nm, e, gen, err, cell, 3 if quick else 6)
     if quick:
         # on the other cells: every rule is built (construction errors are reported), the geometry / constant
         # rules (cell dependent) and every 10th other rule get obligations
         for cell in ("interval", "tetrahedron"):
             rc = rule_cases(cell)
             for k, (nm, e, gen, err) in enumerate(rc):
-                if err is not None or k % 10 == 0 or nm.rsplit("_", 1)[0] in GEOMETRY_RULES | OPERATOR_RULES:
-                    add_rule(nm, e, gen, err, cell, 4)
+                if err is not None or nm.rsplit("_", 1)[0] in GEOMETRY_RULES | OPERATOR_RULES:
+                    add_rule(nm, e, gen, err, cell, 2)
     for cell in ("interval", "triangle", "tetrahedron"):
-        for name, cs, err in ctor_cases(cell, rng0, 3 if quick else 6):
+        for name, cs, err in ctor_cases(cell, rng0, 2 if quick else 6):
             if err is not None:
                 run.violation({"broken": "a spatial derivative of a valid operand raised", "case": name, "detail": err,
                                "reproduce": "ctor_cases(%r) in /verif/py/props/C03.py" % cell}, True)
@@ -560,9 +585,9 @@ def main(run):
     def oracle(case):
         if case.inp is None:
             return ctor_mismatch(case, 2, run.seed)
-        return (pyden.find_mismatch(case.out, case.inp, trials=2, seed=run.seed, nv=3, order=4)
+        return (pyden.find_mismatch(case.out, case.inp, trials=2, seed=run.seed, nv=3, order=4, env_factory=spec_env)
                 or pyden.find_mismatch(case.out, case.inp, trials=2, seed=run.seed + 1, nv=3, order=4,
-                                       env_factory=lambda sd: pyden.Env(nv=3, order=4, seed=sd, positive=True)))
+                                       env_factory=lambda sd: spec_env(sd, True)))
     witness = {}
     for c in cases:
         try:
@@ -574,25 +599,40 @@ def main(run):
     suspects = [c for c in cases if c.name in witness]
     normal = [c for c in cases if c.name not in witness]
     run.extra["numeric_precheck_suspects"] = [c.name for c in suspects]
-    failing = C03_coq.emit_and_check(run, "C03", normal, timeout=1200 if quick else 2700,
-                                     extra_header=C03_coq.extra_header(True), shards=16)
-    for f_ in os.listdir(vlib.GEN):
-        if f_.startswith("C03s_t2_"):
-            os.remove(os.path.join(vlib.GEN, f_))
-    if suspects:
-        failing += C03_coq.emit_and_check(run, "C03s", suspects[:48], timeout=240, max_rounds=1,
-                                          extra_header=C03_coq.extra_header(True), shards=min(16, len(suspects[:48])))
-        for c in suspects[48:]:
-            failing.append((c, c.name + "_numeric", "numeric pre-check: values differ (not sent to Coq)"))
     rcases = [ref_case(*t) for t in ref_cases(run.tier)]
     for c in rcases:
         run.count_case((c.name, str(c.inp)))
     run.sample({"case": rcases[0].name, "input": str(rcases[0].inp)[:300], "output": str(rcases[0].out)[:300]})
-    failing_r = C03_coq.emit_and_check(run, "C03ref", rcases, timeout=1200 if quick else 2700,
+    for f_ in os.listdir(vlib.GEN):
+        if f_.startswith("C03s_t2_"):
+            os.remove(os.path.join(vlib.GEN, f_))
+
+    # the three groups of Coq files are independent: check them concurrently
+    def job_main():
+        fl = C03_coq.emit_and_check(run, "C03", normal, timeout=1200 if quick else 2700,
+                                    extra_header=C03_coq.extra_header(True), shards=16)
+        if suspects:
+            fl += C03_coq.emit_and_check(run, "C03s", suspects[:48], timeout=240, max_rounds=1,
+                                         extra_header=C03_coq.extra_header(True), shards=min(16, len(suspects[:48])))
+            for c in suspects[48:]:
+                fl.append((c, c.name + "_numeric", "numeric pre-check: values differ (not sent to Coq)"))
+        return fl
+
+    def job_ref():
+        return C03_coq.emit_and_check(run, "C03ref", rcases, timeout=1200 if quick else 2700,
                                       extra_header=C03_coq.extra_header_ref(), shards=4 if quick else 8)
-    nf_bad = normal_form_file(run, cases + rcases)
-    for hf in HAND_FILES:
-        hand = vlib.coqc(hf)
+
+    def job_nf_hand():
+        bad = normal_form_file(run, cases + rcases)
+        hands = [vlib.coqc(hf) for hf in HAND_FILES]          # after the nf files: they import C03_model.vo
+        return bad, hands
+
+    import concurrent.futures as cf
+    with cf.ThreadPoolExecutor(3) as ex:
+        f_main, f_ref, f_nf = ex.submit(job_main), ex.submit(job_ref), ex.submit(job_nf_hand)
+        failing, failing_r = f_main.result(), f_ref.result()
+        nf_bad, hands = f_nf.result()
+    for hf, hand in zip(HAND_FILES, hands):
         run.add_coq_result(hand)
         if not hand.ok:
             run.violation({"broken": f"hand-written theorems coq/{hf} do not compile",
@@ -612,10 +652,11 @@ def main(run):
         elif case.inp is None:
             w = ctor_mismatch(case, 10 if quick else 60, run.seed)
         elif case.tactic == "c03_close":
-            w = pyden.find_mismatch(case.out, case.inp, trials=30 if quick else 200, seed=run.seed, nv=3, order=4)
+            w = pyden.find_mismatch(case.out, case.inp, trials=30 if quick else 200, seed=run.seed, nv=3, order=4,
+                                    env_factory=spec_env)
             if not w:      # fields with positive values (powers / logarithms / square roots of the operands)
                 w = pyden.find_mismatch(case.out, case.inp, trials=30 if quick else 200, seed=run.seed + 1, nv=3, order=4,
-                                        env_factory=lambda sd: pyden.Env(nv=3, order=4, seed=sd, positive=True))
+                                        env_factory=lambda sd: spec_env(sd, True))
         rep = {"broken_obligation": lemma, "case": case.name, "note": case.note, "coq_message": msg,
                "input_expr": str(case.inp) if case.inp is not None else f"{case.build}({case.op})",
                "input_repr": repr(case.inp)[:4000] if case.inp is not None else repr(case.op)[:4000],
